@@ -96,16 +96,19 @@ structure Row where
   deriving Repr
 
 /-- Table encoding used by the generated module (keeps elaboration of ~25 000 call edges fast): one natural number per
-callee, little-endian base `2^13` digits `callee+1, caller₁+1, caller₂+1, …` (function ids are < 8191). -/
+callee, little-endian base `2^13` digits `callee+1, caller₁+1, caller₂+1, …` (function ids are < 8191, at most
+`rowDigits - 1` callers per code; a callee with more callers has several codes). -/
 def digitBase : Nat := 8192
 
 def digits : Nat → Nat → List Nat
   | 0, _ => []
-  | fuel + 1, n => if n = 0 then [] else (n % digitBase) :: digits fuel (n / digitBase)
+  | fuel + 1, n => bif Nat.beq n 0 then [] else (n % digitBase) :: digits fuel (n / digitBase)
 
 /-- a callee with its callers outside try blocks; an ill-formed code (no digits) decodes to a row nobody matches -/
+def rowDigits : Nat := 32
+
 def decodeRow (n : Nat) : Row :=
-  match digits (n.log2 / 13 + 1) n with
+  match digits rowDigits n with
   | [] => ⟨digitBase, [], []⟩
   | d :: ds => ⟨d - 1, ds.map (· - 1), []⟩
 
@@ -119,7 +122,8 @@ structure Prog where
 structure Cert where
   reach : List Nat
 
-def Cert.mem (c : Cert) (t : Ty) (f : Fn) : Bool := (c.reach.getD t 0).testBit f
+/-- bit `f` of `reach[t]`, written with the `Nat` primitives the kernel evaluates natively on literals -/
+def Cert.mem (c : Cert) (t : Ty) (f : Fn) : Bool := Nat.beq (Nat.shiftRight (c.reach.getD t 0) f % 2) 1
 
 def siteOk (P : Prog) (c : Cert) (excl : List Nat) (s : Site) : Bool :=
   s.guard != 0 || caughtIn P.hier s.ctx s.ty || excl.contains s.id || c.mem s.ty s.fn
